@@ -737,4 +737,20 @@ Proof.
   rewrite Hd in Hd'. injection Hd' as <-.
   destruct Hor as [[_ H0] | [_ [Heq Hne]]]; [contradiction | rewrite Heq, Hk in Hne; contradiction].
 Qed.
+
+(* ------------------------------------------------------------------------------------------------
+   12. the failure acknowledgement is per REQUEST: one connection may send several
+   ------------------------------------------------------------------------------------------------ *)
+(* connection 3001 (the listening client of mapping 1) sends: a wrong secret, another mapping's id, then a legitimate request *)
+Definition ex_same_conn : list event :=
+  [ EOpen 3001 ex_src {| r_mid := 1; r_tid := 7; r_secret := 999; r_resume := false |};
+    EOpen 3001 ex_src {| r_mid := 2; r_tid := 7; r_secret := 0; r_resume := false |};
+    EOpen 3001 ex_src {| r_mid := 1; r_tid := 7; r_secret := 0; r_resume := false |} ].
+Lemma failure_ack_per_request_witness :
+  let s0 := init ex_db2 (fun _ => None) in
+  open current ex_cfg (s_db s0) (s_tun s0) (s_rt s0) ex_src {| r_mid := 1; r_tid := 7; r_secret := 999; r_resume := false |} = Refuse true /\
+  open current ex_cfg (s_db s0) (s_tun s0) (s_rt s0) ex_src {| r_mid := 2; r_tid := 7; r_secret := 0; r_resume := false |} = Refuse true /\
+  s_tun (run current ex_cfg s0 ex_same_conn) 7 = Some {| b_mid := 1; b_src := Some 3001; b_tgt := None |} /\
+  s_log (run current ex_cfg s0 ex_same_conn) = [(3001, 7, true)].
+Proof. cbv zeta. repeat split; vm_compute; reflexivity. Qed.
 Close Scope N_scope.
